@@ -260,7 +260,7 @@ type Obs struct {
 	Key        []byte // that key
 
 	PostAuth      *refcodec.Ad
-	PostAuthClass string // "protected" | "clear" | "unopened"
+	PostAuthClass string // "protected" (opened under the peer's key) | "clear" | "opaque" (neither)
 
 	ResumeRequested bool
 	ResumeSid       string
@@ -1007,6 +1007,13 @@ func (p *Peer) recvServerAd() error {
 
 func (p *Peer) clientAuthExchange() error {
 	if !p.doAuth {
+		if p.Obs.AnswerAuth == "YES" {
+			// AnswerAuthNo: the server waits for a bitmask that never comes. Half-close so
+			// that it notices at once instead of running into its deadline.
+			if hc, ok := p.conn.(interface{ CloseWrite() }); ok {
+				hc.CloseWrite()
+			}
+		}
 		return nil
 	}
 	mask, own := 0, 0
@@ -1110,14 +1117,18 @@ func (p *Peer) recvPostAuth() error {
 	p.Obs.PostAuthClass = class
 	r := refcodec.Reader{B: pl, Enc: class == "protected"}
 	ad, err := r.ReadAd()
-	if err != nil && class == "unopened" {
-		// the peer holds a key but the endpoint wrote something else: maybe cleartext
+	if err != nil && class != "protected" {
+		// Not readable in the form the peer expects. Either the endpoint wrote
+		// cleartext although the peer holds a key, or it protected the ad with a key
+		// the peer does not hold ("opaque").
 		r = refcodec.Reader{B: pl}
-		if ad2, err2 := r.ReadAd(); err2 == nil {
+		if ad2, err2 := r.ReadAd(); err2 == nil && r.Left() == 0 {
 			p.Obs.PostAuthClass = "clear"
 			p.Obs.PostAuth = &ad2
 			return nil
 		}
+		p.Obs.PostAuthClass = "opaque"
+		return nil
 	}
 	if err != nil {
 		return fmt.Errorf("peer: post-auth ad (%s): %w", class, err)
